@@ -171,6 +171,13 @@ class Session:
         self.probe_hook = None
         self.ext_hook = None
         self.ext_params = {"lh": 200, "nd": 400, "fd": 1750}
+        try:
+            import logging
+            logging.getLogger().setLevel(logging.ERROR)        # gcoder warns about every line without a G/M word
+            from gscrib.printrun import gcoder
+            self.gc = gcoder.GCode([])
+        except Exception:
+            self.gc = None
         self.init_rep = self.snapshot()
 
     # ------------------------------------------------------------------ state
@@ -431,6 +438,7 @@ class Session:
         for ch in chunks:
             text = ch.decode("utf-8", errors="replace")
             self.raw_text.append(text)
+            self._feed_gcoder(text)
             # a chunk is one write(); split on the configured ending, keep anomalies visible
             body = text[:-len(self.eol)] if text.endswith(self.eol) else text
             parts = body.replace("\r\n", "\n").replace("\r", "\n").split("\n")
@@ -441,6 +449,25 @@ class Session:
                     ln["raw"] = list(ch)
                 lines.append(ln)
         return lines
+
+    def _feed_gcoder(self, text):
+        """The bundled printrun.gcoder analyser follows the emitted program line by line (GcoderTrace.tla)."""
+        if self.gc is None:
+            return
+        try:
+            for ln in text.splitlines():
+                if ln.strip():
+                    self.gc.append(ln, store=False)
+        except Exception:
+            self.gc = None
+
+    def gcoder_state(self):
+        a, k = self.gc, self.U * 10
+        if a is None:
+            return {"ok": False, "abs": [0, 0, 0], "rel": False, "rele": False, "imp": False, "e": 0, "f": 0}
+        return {"ok": True, "abs": [int(round(a.abs_x * k)), int(round(a.abs_y * k)), int(round(a.abs_z * k))],
+                "rel": bool(a.relative), "rele": bool(a.relative_e), "imp": bool(a.imperial),
+                "e": int(round(a.abs_e * k)), "f": int(round((a.current_f or 0) * k))}
 
     def observe_xf(self):
         """The map in force, through the public apply_transform(): linear part scaled 1e4, translation in trace units."""
@@ -469,6 +496,7 @@ class Session:
             "ph": self.probe_hook is not None and self._hook_registered(self.probe_hook),
             "eh": bool(self.ext_hook is not None and eh_before),
             "ehp": dict(self.ext_params),
+            "gc": self.gcoder_state(),
         }
         if xf is not None:
             ev["xf"] = xf
